@@ -13,12 +13,13 @@ CONSTANTS
  MaxJoined = 10
  MaxEarly = 3
  Tries = 2
- NextHop = 4 Unstable = 24 CacheTO = 4 Inactive = 8 RemoveDelay = 2 SweepEvery = 2 PingEvery = 3 MaxTime = 1000
+ NextHop = 4 Unstable = 24 CacheTO = 4 Inactive = 8 RemoveDelay = 2 SweepEvery = 2 PingEvery = 1000 MaxTime = 1000
  CreateGuard = TRUE
- MaxCircuits = 1 MaxData = 0 MaxLoss = 1 MaxDup = 0 MaxAdv = 0 MaxNow = 30
+ MaxCircuits = 1 MaxData = 0 MaxLoss = 1 MaxDup = 0 MaxAdv = 0 MaxNow = 24
  Goals = {2}
  Origins = {o}
  AdvKinds = {}
+ NodeRank <- RankDef
  AdvSrcs = {adv}
  TrackWire = FALSE
  UseIds = FALSE
